@@ -665,9 +665,11 @@ pub fn record_opt(rest: &[String]) -> anyhow::Result<()> {
             let mut lines: Vec<&str> = osrc.lines().collect();
             lines.pop(); // the `[main][0]()` call
             let mut a2 = String::new();
-            a2.push_str(lines[0]);
+            // the constants and the two type declarations stay at module level (a record / enum type gets
+            // its name from a module-level variable); everything else goes into make()
+            a2.push_str(&lines[..3].join("\n"));
             a2.push_str("\ndef make():\n");
-            for l in &lines[1..] {
+            for l in &lines[3..] {
                 a2.push_str("    ");
                 a2.push_str(l);
                 a2.push('\n');
@@ -678,7 +680,7 @@ pub fn record_opt(rest: &[String]) -> anyhow::Result<()> {
                 rec["id"] = json!(format!("{}-factory", id));
                 rec["out"] = json!(o.out);
                 // body lines are shifted by the extra `def make():` line
-                let line = if o.line > 2 { o.line - 1 } else { o.line };
+                let line = if o.line > 4 { o.line - 1 } else { o.line };
                 rec["err"] = json!({"kind": o.kind, "line": line});
                 rec["msg"] = json!(o.msg);
                 rec["src"] = json!(a2);
